@@ -105,7 +105,7 @@ def cmp_table(ctx, rep):
                   sample={"orderings": [ma, mi, pa], "result": sorted(results)} if n <= 3 else None)
     for x in bad[:3]:
         rep.fail("R16.2", "cmp:unrecognised", str(x), b.loc())
-    rep.floor("R16.2", 27 + 3)
+    rep.floor("R16.2", 27)
     p = ctx.mir.body("<%s as core::cmp::PartialOrd>::partial_cmp" % GV)
     okp = False
     if p is not None:
